@@ -269,75 +269,115 @@ func runC18(c *Ctx) {
 
 	// ---------------------------------------------------------------- R2
 	c.rule("R2", "every dialled / resolved address originates from parseDialAddr(trimmed URL host, opt.DialAddr, default) via host:port joins only", 10)
-	// (a) parseDialAddr's own logic
+	// (a) parseDialAddr's own logic (D27): host and port come from the URL host; a non-empty dial_addr replaces the host,
+	// and the port only if it carries one; the default port is substituted exactly when the resulting port is 0
 	{
-		var split *ssa.Call
-		eachInstr(pda, func(in ssa.Instruction) {
-			if ci, ok := in.(*ssa.Call); ok && callName(ci) == relUpstream+".trySplitHostPort" {
-				split = ci
+		isSplitOf := func(v ssa.Value, idx int, prm *ssa.Parameter) bool {
+			ex, ok := v.(*ssa.Extract)
+			if !ok || ex.Index != idx {
+				return false
 			}
-		})
-		if split == nil {
-			c.anchorMissing("trySplitHostPort call in parseDialAddr")
-		} else {
-			okAddr := false
-			if phi, ok := split.Call.Args[0].(*ssa.Phi); ok && len(phi.Edges) == 2 {
-				var fromURL, fromDial = -1, -1
-				for i, e := range phi.Edges {
-					if e == ssa.Value(pda.Params[0]) {
-						fromURL = i
-					}
-					if e == ssa.Value(pda.Params[1]) {
-						fromDial = i
-					}
-				}
-				if fromURL >= 0 && fromDial >= 0 {
-					// the dialAddr edge must be guarded by len(dialAddr) > 0
-					pred := phi.Block().Preds[fromDial]
-					for _, g := range guardsOf(pred) {
-						if cm, ok := g.asCmp(); ok && (cm.Op == token.GTR || cm.Op == token.NEQ) {
-							if cl, ok := cm.X.(*ssa.Call); ok && callName(cl) == "builtin:len" && cl.Call.Args[0] == ssa.Value(pda.Params[1]) {
-								if n, ok := constInt(cm.Y); ok && n == 0 {
-									okAddr = true
-								}
-							}
-						}
-					}
-				}
-			}
-			c.check(okAddr, "parseDialAddr:prefer-dial-addr", instrPos(split), "dial_addr is used iff non-empty, else the URL host",
-				"parseDialAddr does not choose dial_addr exactly when it is non-empty")
-			okPort, okHost := false, false
-			for _, r := range returnsOf(pda) {
-				vals := returnedValues(r)
-				if len(vals) != 3 || !isNilConst(vals[2]) {
+			cl, ok := ex.Tuple.(*ssa.Call)
+			return ok && callName(cl) == relUpstream+".trySplitHostPort" && cl.Call.Args[0] == ssa.Value(prm)
+		}
+		dialGuard := func(gs []guard) (has bool, nonEmpty bool) {
+			for _, g := range gs {
+				cm, ok := g.asCmp()
+				if !ok {
 					continue
 				}
-				if ex, ok := vals[0].(*ssa.Extract); ok && ex.Tuple == ssa.Value(split) && ex.Index == 0 {
-					okHost = true
+				cl, isC := cm.X.(*ssa.Call)
+				if !isC || callName(cl) != "builtin:len" || cl.Call.Args[0] != ssa.Value(pda.Params[1]) {
+					continue
 				}
-				if phi, ok := vals[1].(*ssa.Phi); ok && len(phi.Edges) == 2 {
-					for i, e := range phi.Edges {
-						if e != ssa.Value(pda.Params[2]) {
-							continue
-						}
-						other := phi.Edges[1-i]
-						ex, isEx := other.(*ssa.Extract)
-						if !isEx || ex.Tuple != ssa.Value(split) || ex.Index != 1 {
-							continue
-						}
-						for _, g := range guardsOf(phi.Block().Preds[i]) {
-							if cm, ok := g.asCmp(); ok && cm.Op == token.EQL && cm.X == other {
-								if n, ok := constInt(cm.Y); ok && n == 0 {
-									okPort = true
-								}
+				if n, okc := constInt(cm.Y); !okc || n != 0 {
+					continue
+				}
+				switch cm.Op {
+				case token.GTR, token.NEQ:
+					return true, true
+				case token.LEQ, token.EQL:
+					return true, false
+				}
+			}
+			return false, false
+		}
+		var okRet *ssa.Return
+		for _, r := range returnsOf(pda) {
+			vals := returnedValues(r)
+			if len(vals) == 3 && isNilConst(vals[2]) {
+				okRet = r
+			}
+		}
+		if okRet == nil {
+			c.anchorMissing("success return of parseDialAddr")
+		} else {
+			vals := returnedValues(okRet)
+			// host
+			hostOK, sawURL, sawDial := true, false, false
+			for _, lf := range expandCases(vals[0], nil, 0) {
+				has, nonEmpty := dialGuard(lf.guards)
+				switch {
+				case isSplitOf(lf.val, 0, pda.Params[0]) && has && !nonEmpty:
+					sawURL = true
+				case isSplitOf(lf.val, 0, pda.Params[1]) && has && nonEmpty:
+					sawDial = true
+				default:
+					hostOK = false
+				}
+			}
+			c.check(hostOK && sawURL && sawDial, "parseDialAddr:prefer-dial-addr", instrPos(okRet), "the host is dial_addr's iff dial_addr is non-empty, else the URL's; unchanged",
+				"parseDialAddr does not return the split host of dial_addr exactly when dial_addr is non-empty and that of the URL otherwise")
+			c.check(hostOK, "parseDialAddr:host", pda.Pos(), "host is a split host, unchanged", "parseDialAddr does not return the split host unchanged")
+			// port
+			portOK, sawDef, sawURLPort, sawURLPortWithDial, sawDialPort := true, false, false, false, false
+			why := ""
+			for _, lf := range expandCases(vals[1], nil, 0) {
+				has, nonEmpty := dialGuard(lf.guards)
+				switch {
+				case lf.val == ssa.Value(pda.Params[2]):
+					// under "<port> == 0"
+					z := false
+					for _, g := range lf.guards {
+						if cm, ok := g.asCmp(); ok && cm.Op == token.EQL {
+							if n, okc := constInt(cm.Y); okc && n == 0 && cm.X.Type().String() == "uint16" {
+								z = true
 							}
 						}
 					}
+					if !z {
+						portOK, why = false, "the default port is used without the resulting port being 0"
+					}
+					sawDef = true
+				case isSplitOf(lf.val, 1, pda.Params[0]):
+					sawURLPort = true
+					if has && nonEmpty {
+						sawURLPortWithDial = true
+					}
+				case isSplitOf(lf.val, 1, pda.Params[1]):
+					nz := false
+					for _, g := range lf.guards {
+						if cm, ok := g.asCmp(); ok && cm.Op == token.NEQ && cm.X == lf.val {
+							if n, okc := constInt(cm.Y); okc && n == 0 {
+								nz = true
+							}
+						}
+					}
+					if !(has && nonEmpty && nz) {
+						portOK, why = false, "dial_addr's port is used although it has none (0) or dial_addr is empty"
+					}
+					sawDialPort = true
+				default:
+					portOK, why = false, "the port can be "+exprStr(lf.val)
 				}
 			}
-			c.check(okHost, "parseDialAddr:host", pda.Pos(), "host is the split host, unchanged", "parseDialAddr does not return the split host unchanged")
-			c.check(okPort, "parseDialAddr:default-port", pda.Pos(), "default port substituted iff the parsed port is 0", "parseDialAddr does not substitute the default port exactly when the parsed port is 0")
+			if portOK && !(sawDef && sawURLPort && sawDialPort) {
+				portOK, why = false, "not all of {URL port, dial_addr port, default port} can be chosen"
+			}
+			if portOK && !sawURLPortWithDial {
+				portOK, why = false, "with a dial_addr that has no port the URL's port is dropped: tls://dns.example:8853 with dial_addr 198.51.100.7 connects to port 853"
+			}
+			c.check(portOK, "parseDialAddr:default-port", pda.Pos(), "port = dial_addr's if it has one, else the URL's, else the default", "parseDialAddr does not take the port from dial_addr (if it has one), else from the URL, else the scheme default ("+why+")")
 		}
 	}
 	// (b) arguments of parseDialAddr at every call site
@@ -755,17 +795,26 @@ func runC18(c *Ctx) {
 			c.anchorMissing("parseDialAddr calls in NewUpstream")
 		}
 		// nobody rewrites the parsed URL (except the scheme rewrite of R5) or the options
+		bracketed := false
 		for _, fld := range []string{"net/url.URL.Host", "net/url.URL.Path", "net/url.URL.Opaque", relUpstream + ".Opt.DialAddr"} {
 			for _, w := range p.whoWrites().byField[fld] {
 				if w.Kind == "structstore" {
 					continue // the by-value parameter's spill
 				}
 				if w.Fn.Pkg != nil && strings.HasSuffix(w.Fn.Pkg.Pkg.Path(), relUpstream) {
+					// D26: a bare IPv6 literal is put into brackets — "[" + Host + "]" under ParseAddr(Host) ok && Is6() — so that
+					// everything that re-parses the URL (net/http) sees the same host
+					if fld == "net/url.URL.Host" && isBracketingOfHost(w) {
+						bracketed = true
+						continue
+					}
 					c.fail("config-not-rewritten:"+fieldTail(fld), instrPos(w.Instr), "%s is overwritten in %s before the address is derived from it: the connection goes to another host or port than the user wrote", fld, funcName(w.Fn))
 				}
 			}
 		}
-		c.ok("config-not-rewritten", nu.Pos(), "the parsed URL's host/path and opt.DialAddr are never written in pkg/upstream")
+		c.ok("config-not-rewritten", nu.Pos(), "the parsed URL's host/path and opt.DialAddr are never written in pkg/upstream (except bracketing a bare IPv6 host)")
+		c.check(bracketed, "bare-ipv6-bracketed", nu.Pos(), "a bare IPv6 URL host is normalised to the bracketed form before the URL is handed on",
+			"a bare IPv6 URL host is handed on as written: net/http re-parses https://2001:db8::53/dns-query and takes the last group as a port — the TLS server name becomes \"2001:db8:\" (or, for 2001:db8::1:53, the other valid address 2001:db8::1, whose certificate is then accepted)")
 	}
 
 	// ---------------------------------------------------------------- R9
@@ -813,4 +862,50 @@ func runC18(c *Ctx) {
 		}
 	}
 
+}
+
+
+// isBracketingOfHost: the write stores "[" + <URL.Host> + "]" and is guarded by netip.ParseAddr(<URL.Host>) having
+// succeeded and Is6() of its result.
+func isBracketingOfHost(w fieldWrite) bool {
+	st, ok := w.Instr.(*ssa.Store)
+	if !ok {
+		return false
+	}
+	// value: ("[" + host) + "]"
+	outer, ok := st.Val.(*ssa.BinOp)
+	if !ok || outer.Op != token.ADD {
+		return false
+	}
+	rc, ok := outer.Y.(*ssa.Const)
+	if !ok || rc.Value == nil || rc.Value.ExactString() != `"]"` {
+		return false
+	}
+	inner, ok := outer.X.(*ssa.BinOp)
+	if !ok || inner.Op != token.ADD {
+		return false
+	}
+	lc, ok := inner.X.(*ssa.Const)
+	if !ok || lc.Value == nil || lc.Value.ExactString() != `"["` {
+		return false
+	}
+	if k, isF := loadedField(inner.Y); !isF || k != "net/url.URL.Host" {
+		return false
+	}
+	parsed, is6 := false, false
+	for _, g := range guardsOfInstr(w.Instr) {
+		if cm, ok := g.asCmp(); ok && cm.Op == token.EQL && isNilConst(cm.Y) {
+			if ex, isE := cm.X.(*ssa.Extract); isE {
+				if cl, isC := ex.Tuple.(*ssa.Call); isC && callName(cl) == "net/netip.ParseAddr" {
+					parsed = true
+				}
+			}
+		}
+		if v, truth := g.asBool(); truth {
+			if cl, isC := v.(*ssa.Call); isC && callName(cl) == "(net/netip.Addr).Is6" {
+				is6 = true
+			}
+		}
+	}
+	return parsed && is6
 }
